@@ -3,11 +3,15 @@ package cxsim
 import (
 	"errors"
 	"fmt"
+	"reflect"
+	"testing/synctest"
 	"time"
+	"unsafe"
 
 	"github.com/filecoin-project/go-f3/certexchange"
 	"github.com/filecoin-project/go-f3/certexchange/polling"
 	"github.com/filecoin-project/go-f3/certstore"
+	"github.com/filecoin-project/go-f3/internal/clock"
 	"github.com/filecoin-project/go-f3/zz_verif/certgen"
 	"github.com/filecoin-project/go-f3/zz_verif/kernel"
 	"github.com/filecoin-project/go-f3/zz_verif/simds"
@@ -122,8 +126,22 @@ func runC20a(e *env, tier string) {
 	}
 	e.r.Sample["config"] = fmt.Sprintf("single rounds: certs=%d peers=%d", n, npeers)
 	produced := 0
+	localThisRound := 0
 	rounds := 3 + c.Intn(10)
+	w.net.OnRequest = func(p peer.ID, at time.Time) {
+		// a certificate from the node's own consensus may land while a request is in flight
+		if c.Chance(120) {
+			have := latestCount(w.subCS, w.h.First)
+			if have < n {
+				if err := w.subCS.Put(bg, w.h.Certs[have]); err == nil {
+					e.r.Fault("local_certificate_during_poll")
+					localThisRound++
+				}
+			}
+		}
+	}
 	for i := 0; i < rounds && e.viol == nil; i++ {
+		localThisRound = 0
 		// production pattern: nothing, one, or a burst
 		switch c.Pick([]int{3, 4, 3}) {
 		case 1:
@@ -137,7 +155,7 @@ func runC20a(e *env, tier string) {
 		}
 		before := latestCount(w.subCS, w.h.First)
 		nextBefore := polling.VerifNextInstance(w.sub)
-		progress, newCert, err := polling.VerifPoll(bg, w.sub)
+		progress, newCert, err := polling.VerifRound(bg, w.sub)
 		after := latestCount(w.subCS, w.h.First)
 		nextAfter := polling.VerifNextInstance(w.sub)
 		e.r.Steps++
@@ -147,12 +165,20 @@ func runC20a(e *env, tier string) {
 			return
 		}
 		adv := uint64(after - before)
-		if progress != adv || nextAfter-nextBefore != adv {
-			e.fail("progress_not_store_advance", "progress", "polling round reported progress %d; the store advanced by %d instances (next instance %d -> %d)", progress, adv, nextBefore, nextAfter)
+		// The round's progress is what the poller's position gained; the position may trail the
+		// store only by certificates that landed locally while the round's requests were in flight
+		// (they are accounted by the next catch-up).
+		lag := uint64(after) + w.h.First - nextAfter
+		if nextAfter < nextBefore || nextAfter > uint64(after)+w.h.First || lag > uint64(localThisRound) {
+			e.fail("poller_position_inconsistent", "progress", "after the round the poller's next instance is %d, the store holds instances up to %d (%d certificates landed locally during the round)", nextAfter, int64(after)+int64(w.h.First)-1, localThisRound)
 			return
 		}
-		if newCert != (adv > 0) {
-			e.fail("new_certificate_flag", "progress", "polling round reported new=%v although the store advanced by %d", newCert, adv)
+		if progress != nextAfter-nextBefore {
+			e.fail("progress_not_store_advance", "progress", "polling round reported progress %d; the poller advanced from instance %d to %d (store advanced by %d instances)", progress, nextBefore, nextAfter, adv)
+			return
+		}
+		if newCert && adv == 0 {
+			e.fail("new_certificate_flag", "progress", "polling round reported a new certificate although the store did not advance")
 			return
 		}
 		if adv > 1 {
@@ -164,144 +190,219 @@ func runC20a(e *env, tier string) {
 	}
 }
 
-// ---- (b) end-to-end cadence in virtual time
+// nextMockTimer reads the deadline of the single pending timer of a go-clock Mock (the
+// subscriber's poll timer) through reflection: the field is unexported and the mock offers no
+// accessor. ok=false when no timer is pending.
+func nextMockTimer(m *clock.Mock) (time.Time, bool) {
+	f := reflect.ValueOf(m).Elem().FieldByName("timers")
+	f = reflect.NewAt(f.Type(), unsafe.Pointer(f.UnsafeAddr())).Elem()
+	var best time.Time
+	found := false
+	for i := 0; i < f.Len(); i++ {
+		e := f.Index(i).Elem() // concrete *internalTimer / *internalTicker
+		next := e.MethodByName("Next").Call(nil)[0].Interface().(time.Time)
+		if !found || next.Before(best) {
+			best, found = next, true
+		}
+	}
+	return best, found
+}
+
+// ---- (b) end-to-end cadence, stepped on a mock clock inside the bubble: the harness waits for
+// quiescence, reads the deadline the subscriber programmed, applies production and local-store
+// events that fall before it, fires the timer, and judges the next programmed wait.
+// settle lets every goroutine of the bubble run until it is blocked on something other than a
+// (virtual) sleep: the mock clock's Add/Set yield with a 1 ms sleep, during which synctest.Wait
+// alone would already report quiescence.
+func settle() {
+	time.Sleep(10 * time.Second) // bubble time only; the mock clock is not touched
+	synctest.Wait()
+}
+
 func runC20b(e *env, tier string) {
 	c, r := e.c, e.r
 	minI := time.Duration(1+c.Intn(5)) * time.Second
 	maxI := minI * time.Duration(20+c.Intn(100))
 	initI := minI * time.Duration(2+c.Intn(15))
-	// production interval strictly inside (min, max)
 	T := minI*2 + time.Duration(c.Intn(int((maxI/2-minI*2)/time.Millisecond)+1))*time.Millisecond
 	pattern := c.Pick([]int{5, 2, 2}) // steady, bursty, stall-and-resume
-	polls := 90
+	iters := 90
 	if tier == "thorough" {
-		polls = 200
+		iters = 220
 	}
-	ncerts := 400
-	latency := time.Duration(0)
+	ncerts := 420
 	npeers := 1 + c.Intn(3)
-	if c.Chance(400) {
-		npeers = 1
-		latency = minI / time.Duration(8+c.Intn(8))
+	latency := time.Duration(0)
+	if c.Chance(500) {
+		latency = minI / time.Duration(4+c.Intn(12))
+	}
+	localPm := 0 // chance that a certificate is produced locally (own consensus) instead of at the peers
+	if c.Chance(500) {
+		localPm = []int{50, 200, 500}[c.Intn(3)]
 	}
 	w := newCadWorld(e, ncerts, npeers, minI)
 	defer w.stop()
 	if npeers > 1 && c.Chance(400) {
 		w.peers[npeers-1].lag = 1 + c.Intn(2)
 	}
+	// the subscriber may resume on a non-empty store
+	resume := 0
+	if c.Chance(400) {
+		resume = 1 + c.Intn(5)
+		for i := 0; i < resume; i++ {
+			if err := w.subCS.Put(bg, w.h.Certs[i]); err != nil {
+				kernel.Infra("resume put: %v", err)
+			}
+		}
+		w.produce(resume)
+	}
+	ctx, mock := clock.WithMockClock(bg)
+	t0 := time.Date(2024, 1, 1, 0, 0, 0, 0, time.UTC)
+	mock.Set(t0)
 	w.net.Plan = func(peer.ID) ReadPlan {
 		p := DefaultPlan()
 		p.FirstByteDelay = latency
 		return p
 	}
-	r.Sample["config"] = fmt.Sprintf("cadence: min=%v init=%v max=%v T=%v pattern=%d peers=%d latency=%v", minI, initI, maxI, T, pattern, npeers, latency)
+	var reqAccum time.Duration
+	w.net.Sleep = func(d time.Duration) { reqAccum += d; mock.Add(d) }
+	r.Sample["config"] = fmt.Sprintf("cadence: min=%v init=%v max=%v T=%v pattern=%d peers=%d latency=%v local=%d/1000 resume=%d", minI, initI, maxI, T, pattern, npeers, latency, localPm, resume)
 	r.Tracef("config %s", r.Sample["config"])
-	// pre-drawn production schedule
+	// pre-drawn production schedule: (time, total produced, local?)
 	type prod struct {
-		at time.Duration
-		n  int
+		at    time.Duration
+		n     int
+		local bool
 	}
 	var sched []prod
-	t := time.Duration(0)
-	total := 0
+	tt := time.Duration(0)
+	total := resume
 	for total < ncerts-8 {
 		switch pattern {
 		case 0:
-			t += T
+			tt += T
 			total++
 		case 1:
-			t += T * time.Duration(1+c.Intn(4))
+			tt += T * time.Duration(1+c.Intn(4))
 			total += 1 + c.Intn(5)
 		case 2:
 			if c.Chance(100) {
-				t += T * time.Duration(5+c.Intn(20)) // stall
+				tt += T * time.Duration(5+c.Intn(20))
 			} else {
-				t += T
+				tt += T
 			}
 			total++
 		}
-		sched = append(sched, prod{t, total})
+		sched = append(sched, prod{tt, total, c.Chance(localPm)})
 	}
-	// observations
-	type reqObs struct {
-		at     time.Time
-		stored int
-	}
-	var reqs []reqObs
-	start := time.Now()
+	// local production that lands while a request is in flight
+	midPoll := c.Chance(400)
+	nreq := 0
+	localDuringPoll := 0
+	produced := resume
 	w.net.OnRequest = func(p peer.ID, at time.Time) {
-		reqs = append(reqs, reqObs{at, latestCount(w.subCS, w.h.First)})
+		nreq++
+		if midPoll && c.Chance(150) {
+			have := latestCount(w.subCS, w.h.First)
+			if have < produced+1 && have < ncerts-1 {
+				if err := w.subCS.Put(bg, w.h.Certs[have]); err == nil {
+					localDuringPoll++
+					r.Fault("local_certificate_during_poll")
+				}
+			}
+		}
 	}
 	w.sub = &polling.Subscriber{Client: certexchange.Client{Host: w.host, NetworkName: nn, RequestTimeout: minI}, Store: w.subCS, SignatureVerifier: w.g.Sig,
 		InitialPollInterval: initI, MaximumPollInterval: maxI, MinimumPollInterval: minI}
-	if err := w.sub.Start(bg); err != nil {
+	if err := w.sub.Start(ctx); err != nil {
 		kernel.Infra("subscriber start: %v", err)
 	}
-	// producer
-	done := make(chan struct{})
-	go func() {
-		defer close(done)
-		for _, p := range sched {
-			d := time.Until(start.Add(p.at))
-			if d > 0 {
-				time.Sleep(d)
-			}
-			w.produce(p.n)
-		}
-	}()
-	// run until enough polling rounds were observed or production ended
-	deadline := start.Add(sched[len(sched)-1].at)
-	for time.Now().Before(deadline) {
-		time.Sleep(maxI)
-		if len(reqs) > polls*4*npeers {
-			break
-		}
-	}
-	_ = w.sub.Stop(bg)
-	<-done
-	r.SimTime = time.Since(start)
-
-	// ---- group requests into polling rounds
-	type round struct {
-		at      time.Time
-		nreq    int
-		stored  int
-		lastReq time.Time
-	}
-	var rounds []round
-	for _, q := range reqs {
-		if n := len(rounds); n > 0 && q.at.Sub(rounds[n-1].lastReq) <= latency+time.Millisecond {
-			rounds[n-1].nreq++
-			rounds[n-1].lastReq = q.at
-			continue
-		}
-		rounds = append(rounds, round{at: q.at, nreq: 1, stored: q.stored, lastReq: q.at})
-	}
-	if len(rounds) < 5 {
-		kernel.Infra("only %d polling rounds observed", len(rounds))
-	}
-	if d := rounds[0].at.Sub(start); d != initI {
-		e.fail("first_poll_time", "cadence", "first poll after %v, initial interval is %v", d, initI)
+	defer func() { _ = w.sub.Stop(bg) }()
+	shadow := polling.VerifNewPredictor(minI, initI, maxI)
+	si := 0
+	settle()
+	if nx, want := polling.VerifNextInstance(w.sub), w.h.First+uint64(latestCount(w.subCS, w.h.First)); nx != want {
+		e.fail("poller_position_inconsistent", "start", "after start on a store holding instances up to %d the poller's next instance is %d", int64(want)-1, nx)
 		return
 	}
-	shadow := polling.VerifNewPredictor(minI, initI, maxI)
 	var intervals []time.Duration
-	for k := 0; k+1 < len(rounds) && e.viol == nil; k++ {
-		progress := uint64(rounds[k+1].stored - rounds[k].stored)
-		I := shadow.Update(progress)
-		req := time.Duration(rounds[k].nreq) * latency
-		got := rounds[k+1].at.Sub(rounds[k].at)
-		if rounds[k+1].at.Before(deadline) {
-			intervals = append(intervals, got) // steady-state statistics only while production lasts
+	var lastD time.Time
+	for it := 0; it < iters && e.viol == nil && si < len(sched); it++ {
+		settle()
+		D, ok := nextMockTimer(mock)
+		if !ok {
+			e.fail("no_poll_scheduled", "cadence", "after iteration %d the subscriber has no poll timer pending", it)
+			return
 		}
-		lo := I
-		hi := max(I, req) + min(req, I/2)
+		if it == 0 {
+			if d := D.Sub(t0); d != initI {
+				e.fail("first_poll_time", "cadence", "first poll scheduled after %v, the initial interval is %v", d, initI)
+				return
+			}
+		} else {
+			intervals = append(intervals, D.Sub(lastD))
+		}
+		// production events up to the deadline
+		for si < len(sched) && !t0.Add(sched[si].at).After(D) {
+			ev := sched[si]
+			si++
+			if at := t0.Add(ev.at); at.After(mock.Now()) && at.Before(D) {
+				mock.Set(at)
+			}
+			produced = ev.n
+			if ev.local {
+				// the node's own consensus produced it: it reaches the local store first
+				for have := latestCount(w.subCS, w.h.First); have < ev.n && have < ncerts; have++ {
+					if err := w.subCS.Put(bg, w.h.Certs[have]); err != nil {
+						kernel.Infra("local put: %v", err)
+					}
+				}
+				r.Fault("local_certificate_between_polls")
+			}
+			w.produce(ev.n)
+		}
+		nreq, localDuringPoll = 0, 0
+		nextBefore := polling.VerifNextInstance(w.sub)
+		reqAccum = 0
+		mock.Set(D) // fires the poll timer
+		settle()
+		// Mock.Set writes its target time once more after the woken goroutine has already run
+		// (and advanced the clock by its request latencies): put the clock where it belongs.
+		if reqAccum > 0 {
+			mock.Set(D.Add(reqAccum))
+			settle()
+		}
+		now2 := D.Add(reqAccum)
+		D2, ok := nextMockTimer(mock)
+		if !ok {
+			e.fail("no_poll_scheduled", "cadence", "after the poll at +%v the subscriber has no poll timer pending", D.Sub(t0))
+			return
+		}
+		storeNow := latestCount(w.subCS, w.h.First)
+		nextAfter := polling.VerifNextInstance(w.sub)
+		// the poller's position may trail the store only by certificates that landed locally while
+		// this iteration's requests were in flight
+		if lag := w.h.First + uint64(storeNow) - nextAfter; nextAfter < nextBefore || nextAfter > w.h.First+uint64(storeNow) || lag > uint64(localDuringPoll) {
+			e.fail("poller_position_inconsistent", "progress", "after the poll at +%v the poller's next instance is %d, the store holds instances up to %d (%d certificates landed locally during the poll)", D.Sub(t0), nextAfter, int64(w.h.First)+int64(storeNow)-1, localDuringPoll)
+			return
+		}
+		progress := nextAfter - nextBefore
+		I := shadow.Update(progress)
+		reqTime := now2.Sub(D)
+		wait := D2.Sub(now2)
+		base := max(D.Add(I).Sub(now2), 0)
+		hi := base + min(reqTime, base/2)
 		r.Steps++
-		r.Tracef("round %d at +%v progress=%d predicted=%v req=%v next after %v", k, rounds[k].at.Sub(start), progress, I, req, got)
-		if got < lo {
-			e.fail("poll_too_early", "cadence", "poll %d came %v after the previous one; the predicted interval for a progress of %d instances is %v (min %v, max %v)", k+1, got, progress, I, minI, maxI)
-		} else if got > hi {
-			e.fail("poll_too_late", "cadence", "poll %d came %v after the previous one; predicted interval %v, request time %v: at most %v allowed", k+1, got, I, req, hi)
+		r.Tracef("iter %d at +%v: requests=%d reqTime=%v progress=%d (local during poll %d) predicted=%v -> wait %v (allowed %v..%v)", it, D.Sub(t0), nreq, reqTime, progress, localDuringPoll, I, wait, base, hi)
+		if wait < base {
+			e.fail("poll_too_early", "cadence", "after the poll at +%v (store advanced by %d, request time %v) the next poll is programmed in %v; the predicted interval %v allows no less than %v (min %v, max %v)",
+				D.Sub(t0), progress, reqTime, wait, I, base, minI, maxI)
+		} else if wait > hi {
+			e.fail("poll_too_late", "cadence", "after the poll at +%v (store advanced by %d, %d requests taking %v) the next poll is programmed in %v; predicted interval %v: at most %v is allowed",
+				D.Sub(t0), progress, nreq, reqTime, wait, I, hi)
+		}
+		if nreq == 0 {
+			r.Probe("iteration_without_requests")
 		}
 		if progress > 1 {
 			r.Probe("multi_certificate_poll")
@@ -309,9 +410,11 @@ func runC20b(e *env, tier string) {
 		if progress == 0 {
 			r.Probe("empty_poll")
 		}
+		lastD = D
 	}
-	// ---- steady production: the cadence settles near T
-	if e.viol == nil && pattern == 0 && len(intervals) >= 70 {
+	r.SimTime = mock.Now().Sub(t0)
+	// steady production, all of it visible to the peers: the cadence settles near T
+	if e.viol == nil && pattern == 0 && localPm == 0 && !midPoll && len(intervals) >= 70 {
 		var sum time.Duration
 		tail := intervals[len(intervals)-20:]
 		for _, d := range tail {
